@@ -47,6 +47,13 @@ class Obj(object):
         self.start_clk = None
 
 
+def same(a, b):
+    """Same simulated date. The kernel's clock may differ by an ulp between a profile event (date taken from the profile) and the
+    events that follow (date = previous date + delta): anything below SimGrid's timing precision (1e-9) is the same date.
+    The fault points are 1e-6 apart."""
+    return abs(a - b) <= 1e-9 * max(1.0, abs(a), abs(b))
+
+
 def parse(text):
     evs = []
     for ln, raw in enumerate(text.splitlines()):
@@ -91,7 +98,7 @@ def reorder(evs, path):
             continue
         if ev.kind == "S":
             pulled = []
-            while out and out[-1].kind == "F" and out[-1].clk == ev.clk:
+            while out and out[-1].kind == "F" and same(out[-1].clk, ev.clk):
                 pulled.append(out.pop())
             out.append(ev)
             out += reversed(pulled)
@@ -241,7 +248,14 @@ class Model(object):
             for a in range(self.na):
                 if self.alive[a] and self.host[a] == res[1]:
                     self.alive[a] = False
-                    self.killed[a] = {"date": clk, "x": 0}
+                    b = self.blocked.get(a)
+                    shared = False
+                    for o in (b["objs"] if b else []):
+                        if o.type == "comm" and o.matched and o.snd and o.rcv:
+                            other = o.rcv[0] if o.snd[0] == a else o.snd[0]
+                            shared = shared or self.host[other] == res[1]
+                    self.killed[a] = {"date": clk, "x": 0, "tag": "blocked-on-comm-with-actor-of-same-host" if shared else
+                                      ("blocked-in-%s" % b["kind"] if b else "not-blocked")}
                     self.blocked.pop(a, None)
                     for key in [key for key in self.expect if key[0] == a]:
                         del self.expect[key]
@@ -442,12 +456,13 @@ class Model(object):
             if not failed:
                 self.report("C10:on-exit-flag", "actor %d was killed by the failure of its host H%d at %.17g but its on_exit callback saw failed=false"
                             % (a, self.host[a], kd["date"]))
-            if ev.clk != kd["date"]:
+            if not same(ev.clk, kd["date"]):
                 self.report("C10:on-exit-late", "actor %d was killed by the failure of its host H%d at %.17g but its on_exit callback ran at %.17g"
                             % (a, self.host[a], kd["date"], ev.clk))
             self.checked += 1
             self.count("checked.killed_actor_on_exit_failed_true_at_fault_date")
-            self.trace.append(("kill_x", ev.idx))
+            if a in self.started:      # otherwise the callback is not demanded (killed before its registration returned)
+                self.trace.append(("kill_x", ev.idx))
             return
         if a in self.ended:
             return
@@ -514,12 +529,12 @@ class Model(object):
                 o.ended = True
                 return
             if kv.get("val") == "0":
-                if sure and ev.clk > o.doom["date"]:
+                if sure and ev.clk > o.doom["date"] and not same(ev.clk, o.doom["date"]):
                     self.report("C10:test-pending-on-failed:%s" % o.type, "test() by actor %d at %.17g says the %s activity is still pending although a "
                                 "resource it uses failed at %.17g" % (a, ev.clk, o.type, o.doom["date"]))
                 return
             # val=1: the failure must at least be visible in the state of the activity
-            if sure and ev.clk != o.doom["date"] and kv.get("state") != "FAILED":
+            if sure and not same(ev.clk, o.doom["date"]) and kv.get("state") != "FAILED":
                 self.report("C10:test-masks-failure:%s" % o.type,
                             "a resource used by the %s activity of actor %d op %s failed at %.17g; test() at %.17g returns true without any exception and "
                             "the activity's state reads %s%s: the failure is never reported to this actor" % (
@@ -540,7 +555,7 @@ class Model(object):
             which = int(kv.get("which", "-1"))
             o = self.handle.get((a, which))
             if e is not None:
-                if ev.clk != e["date"]:
+                if not same(ev.clk, e["date"]):
                     self.late(a, k, kind, e, ev)
                 self.checked += 1
                 self.count("checked.wait_any_returns_at_fault_date")
@@ -576,7 +591,7 @@ class Model(object):
         fams = set(FAMILY[o.type] for o in objs)
         doomed = [o for o in objs if o.doom is not None or o.ambiguous]
         if e is not None:
-            if ev.clk != e["date"]:
+            if not same(ev.clk, e["date"]):
                 self.late(a, k, kind, e, ev)
             if exc not in e["fams"]:
                 self.report("C10:wrong-exception:%s:%s" % (e["objs"][0].type, exc), "actor %d %s() on %s: expected %s, got %s" % (
@@ -609,14 +624,14 @@ class Model(object):
     def judge_ok(self, a, k, kind, o, ev, e):
         sure = o.doom is not None and o.doom["sure"] and not o.ambiguous
         if sure:
-            if ev.clk == o.doom["date"]:
+            if same(ev.clk, o.doom["date"]):
                 self.count("ties.completion_at_fault_date_accepted")
                 return
             self.report("C10:success-on-failed-resource:%s:%s" % (self.tname(o), kind), "%s used a resource that failed at %.17g while it was alive%s, yet %s() "
                         "by actor %d reports success at %.17g" % (self.desc(o), o.doom["date"], " (%s)" % e["why"] if e else "", kind, a, ev.clk))
         if e is not None:
             # the demand was attached to another member of a wait_any set
-            if ev.clk != e["date"]:
+            if not same(ev.clk, e["date"]):
                 self.late(a, k, kind, e, ev)
         if o.doom is None and self.fault_dates:
             self.count("observed.unaffected_activity_completed_after_a_fault")
@@ -638,7 +653,8 @@ class Model(object):
         self.cur = None
         for a, kd in sorted(self.killed.items()):
             if kd["x"] == 0 and a in self.started:
-                self.report("C10:on-exit-missing", "actor %d was on H%d which went off at %.17g; its on_exit callback never ran" % (a, self.host[a], kd["date"]))
+                self.report("C10:on-exit-missing:%s" % kd["tag"], "actor %d was on H%d which went off at %.17g (it was %s); its on_exit callback never ran: "
+                            "it was never terminated" % (a, self.host[a], kd["date"], kd["tag"]))
         for (a, k), e in sorted(self.expect.items()):
             if not self.alive[a]:
                 continue
